@@ -12,7 +12,7 @@
 //
 // Put this file into /repo/rest/httpx/ (package httpx) of a scratch worktree and run
 //   go test -vet=off -count=1 -run TestC08EmbeddedOptionalHeader -v ./rest/httpx/
-// Expected on the pinned tree: FAIL.
+// Expected on /repo before e1485f4: FAIL; repaired by e1485f4 (passes now; mutants/C08-bare-key-not-canonicalised.patch reverts it).
 package httpx
 
 import (
